@@ -12,7 +12,7 @@ from checks import ASSUME_COMMON, cache_dir, generic_verdict, model_run, reg
 
 def page_scenarios(tier, seed):
     rng = random.Random(seed * 7919 + 18)
-    n_sc, budget = (4, 1300) if tier == "quick" else (24, 3200)
+    n_sc, budget = (4, 1300) if tier == "quick" else (12, 2400)
     out = []
     # fixed shapes: the node table growing *in place* (it is the last structure in the file) across one and two page
     # boundaries, on a fresh file and after a relocation, each followed by allocations of other structures
